@@ -108,24 +108,26 @@ func (c *ClusterNodes) loopClusterNodes() {
 	for {
 		select {
 		case msg := <-EngineGlobal.clusterChan:
+			// an unusable reply leaves the current topology in force; the loop must keep
+			// running so that later replies are still adopted
 			if len(msg) < 3 {
-				return
+				continue
 			}
 			if msg[0] == '+' && msg[1] == 'O' && msg[2] == 'K' {
-				return
+				continue
 			}
 			if msg[0] == '$' && msg[1] == '-' && msg[2] == '1' {
-				return
+				continue
 			}
 
 			length, err := parseLen(msg[1 : bytes.IndexByte(msg, '\n')-1])
 			if err != nil {
 				logging.Errorf("[cluster loop] update cluster nodes: nodes info invalid: %s", err)
-				return
+				continue
 			}
 			if length > 163840 {
 				logging.Errorf("[cluster loop] update cluster nodes: nodes info too large > 163840")
-				return
+				continue
 			}
 
 			if err := c.updateClusterNodes(string(msg[bytes.IndexByte(msg, '\n')+1 : len(msg)-3])); err != nil {
